@@ -151,6 +151,12 @@ func (e *Env) MakeHealthy() {
 // PropC01: convergence to the hook's desired children, then quiescence.
 func PropC01(c *vs.Case, f Factory, kind string) error {
 	scn := GenScn(c, GenOpts{Kind: kind, AllowRolling: true, AllowSSA: true, AllowFinalize: true})
+	if c.Prob(1, 4) {
+		// debug verbosity: the V(5) code paths (diff rendering etc.) run too
+		SetVerboseLogging(true)
+		defer SetVerboseLogging(false)
+		c.Class("verbose-logging")
+	}
 	for i := range scn.Prog.Children {
 		// hooks that serialise typed objects return a status stanza with every child
 		if c.Prob(1, 5) {
